@@ -24,6 +24,16 @@ func verifYield(event string, queue any) {
 	}
 }
 
+// VerifQueueState reports the current length and capacity of a queue's token
+// channel (ok is false when the argument is not a queue of this package).
+func VerifQueueState(queue any) (length int, capacity int, ok bool) {
+	if q, isQueue := queue.(interface{ verifState() (int, int) }); isQueue {
+		length, capacity = q.verifState()
+		return length, capacity, true
+	}
+	return 0, 0, false
+}
+
 func (v *queue_[V]) verifState() (length int, capacity int) {
 	return len(v.available_), cap(v.available_)
 }
